@@ -42,6 +42,8 @@ type Ctx struct {
 	Funcs map[string]bool // functions analysed (names)
 	Calls int             // call sites inspected
 	Notes []string
+	// Filter restricts which obligations are recorded (property scoping).
+	Filter func(rule, construct string) bool
 	// Floors: rule -> minimum number of instances that must be found.
 	floors map[string]int
 	counts map[string]int
@@ -52,6 +54,9 @@ func NewCtx(p *Program, tier string) *Ctx {
 }
 
 func (c *Ctx) add(o Obligation) {
+	if c.Filter != nil && !strings.HasPrefix(o.Construct, "floor/") && !c.Filter(o.Rule, o.Construct) {
+		return
+	}
 	k := o.Key()
 	if n, dup := c.seen[k]; dup {
 		// Disambiguate deterministically; constructs are expected to be unique
